@@ -6,25 +6,30 @@
    configured with the scenario whose as-is model has the decision variables [asis] (name, value).
    [cast] is ANY caster that agrees with the model GoCast.v wherever the model speaks (strconv is trusted; the model
    is tied to it exhaustively on short strings over [0-9A-F:]); [fmt] is ANY float formatter (it is never reached).
-   [wf_summary asis sm] (boolean): first label is As-Is and its values are the as-is model's; every row has one
+   [wf_summary nw asis sm] (boolean): first label is As-Is and its values are the as-is model's; every row has one
    value per variable, a note that is text, value texts that are numbers, an encoding over [0-9A-Fa-f:] — ANY such
    text, including ones that also parse as a number, an exponent literal or a boolean; labels are distinct; variable
-   names are distinct and none is Solution/Actions/Summary.
+   names are distinct and none is Solution/Actions/Summary; and every Actions text (the As-Is row's too) DECODES into
+   the scenario's action archive of [nw] words ([actions_decodable nw]: nw entries between ':', each accepted by
+   ParseUint(.,16,64)) — since 7ecfa2c the engine refuses a summary with a cell that does not.  Encodings written by
+   the explorer's compressor for the same scenario meet that clause (C13_explorer_encodings_decodable, from C09), so
+   C13_round_trip_explorer_written carries no hypothesis on the encodings beyond their origin.
    [loaded cast asis sm pool] is the engine state holding the table of [sm] and the solution pool [pool].
 
    Since b0400cb (CellString returns the cell's text verbatim) and 43fcffa (POST /solutions clears the pool) the
    three clauses hold at FULL strength: no stability hypothesis on the encodings, any earlier engine history. *)
 From Coq Require Import List String Ascii QArith Bool Arith.
 From Crem Require Import Base.Res CsvTable GoCast GoCastProofs SummaryRoundTrip SummaryProofs.
+From Crem Require BoolArchive BoolArchiveProofs.
 Import ListNotations.
 Local Open Scope string_scope.
 Local Open Scope nat_scope.
 
 (* ---- clause 1: the summary is accepted by POST /solutions, whatever the engine held before; the table is
         replaced and the solution pool emptied ---- *)
-Theorem C13_accepts : forall cast fmt asis sm st, cast_agrees cast ->
-  wf_summary asis sm = true ->
-  post_solutions cast fmt asis st (CsvRecords (marshal_records (map fst asis) sm)) =
+Theorem C13_accepts : forall nw cast fmt asis sm st, cast_agrees cast ->
+  wf_summary nw asis sm = true ->
+  post_solutions nw cast fmt asis st (CsvRecords (marshal_records (map fst asis) sm)) =
   Ok (S200, loaded cast asis sm []).
 Proof. exact c13_accepts. Qed.
 
@@ -32,22 +37,22 @@ Proof. exact c13_accepts. Qed.
 (* (the pool entry [Decoded e s] is the model decoded from the text e, with attributes Encoding = e, Summary = s;
    [assoc (r_label r) pool = None]: the label has not been fetched since the last POST — true right after a POST
    by C13_accepts, and C13_lookup_again covers the repeated request) *)
-Theorem C13_lookup_exact : forall cast fmt asis sm pool r, cast_agrees cast ->
-  wf_summary asis sm = true ->
+Theorem C13_lookup_exact : forall nw cast fmt asis sm pool r, cast_agrees cast ->
+  wf_summary nw asis sm = true ->
   In r (tl sm) -> assoc (r_label r) pool = None ->
   get_solution fmt (loaded cast asis sm pool) (r_label r) =
   Ok (Decoded (r_enc r) (r_note r), loaded cast asis sm ((r_label r, (r_enc r, r_note r)) :: pool)).
 Proof. exact c13_lookup_exact. Qed.
 
-Theorem C13_lookup_again : forall cast fmt asis sm pool r, cast_agrees cast ->
-  wf_summary asis sm = true ->
+Theorem C13_lookup_again : forall nw cast fmt asis sm pool r, cast_agrees cast ->
+  wf_summary nw asis sm = true ->
   In r (tl sm) -> assoc (r_label r) pool = None ->
   exists st', get_solution fmt (loaded cast asis sm pool) (r_label r) = Ok (Decoded (r_enc r) (r_note r), st') /\
     get_solution fmt st' (r_label r) = Ok (Decoded (r_enc r) (r_note r), st').
 Proof. exact c13_lookup_again. Qed.
 
-Theorem C13_lookup_asis : forall cast fmt asis sm pool,
-  wf_summary asis sm = true ->
+Theorem C13_lookup_asis : forall nw cast fmt asis sm pool,
+  wf_summary nw asis sm = true ->
   get_solution fmt (loaded cast asis sm pool) "As-Is" = Ok (AsIsSolution, loaded cast asis sm pool).
 Proof. exact c13_lookup_asis. Qed.
 
@@ -58,28 +63,59 @@ Proof. exact c13_lookup_unknown. Qed.
 
 (* POST then GET in one statement, from ANY engine state [st] (any earlier summary, any solutions already pooled
    under the same labels): the answer is this summary's row *)
-Theorem C13_round_trip : forall cast fmt asis sm st r, cast_agrees cast ->
-  wf_summary asis sm = true -> In r (tl sm) ->
+Theorem C13_round_trip : forall nw cast fmt asis sm st r, cast_agrees cast ->
+  wf_summary nw asis sm = true -> In r (tl sm) ->
   exists st' st'',
-    post_solutions cast fmt asis st (CsvRecords (marshal_records (map fst asis) sm)) = Ok (S200, st') /\
+    post_solutions nw cast fmt asis st (CsvRecords (marshal_records (map fst asis) sm)) = Ok (S200, st') /\
     get_solution fmt st' (r_label r) = Ok (Decoded (r_enc r) (r_note r), st'').
 Proof. exact c13_round_trip. Qed.
 
 (* ---- clause 3: setting the model from the encoding of a non-as-is row marks it as a front member ---- *)
 (* [recode e = Some e]: the encoding is the canonical text of the action set it decodes to (C09: true of every
    encoding the compressor writes; the engine compares the model's re-encoded text with the Actions cells) *)
-Theorem C13_front_member : forall cast fmt asis recode sm pool r, cast_agrees cast ->
-  wf_summary asis sm = true ->
+Theorem C13_front_member : forall nw cast fmt asis recode sm pool r, cast_agrees cast ->
+  wf_summary nw asis sm = true ->
   In r (tl sm) -> recode (r_enc r) = Some (r_enc r) ->
   pareto_member fmt recode (loaded cast asis sm pool) (r_enc r) = Ok (Some (Some true)).
 Proof. exact c13_front_member. Qed.
 
 (* and only those: an encoding that is none of rows 1.. (e.g. only the as-is row's) is not a member *)
-Theorem C13_front_non_member : forall cast fmt asis recode sm pool e e', cast_agrees cast ->
-  wf_summary asis sm = true ->
+Theorem C13_front_non_member : forall nw cast fmt asis recode sm pool e e', cast_agrees cast ->
+  wf_summary nw asis sm = true ->
   recode e = Some e' -> (forall r, In r (tl sm) -> r_enc r <> e') ->
   pareto_member fmt recode (loaded cast asis sm pool) e = Ok (Some (Some false)).
 Proof. exact c13_front_non_member. Qed.
+
+(* ---- the decodability clause ---- *)
+(* it is exactly BooleanArchive.Decode's verdict (and a refused text leaves the archive untouched) *)
+Theorem C13_decodable_is_decode_verdict : forall a s, BoolArchiveProofs.wf a ->
+  exists a', BoolArchive.decode a s = Ok (a', actions_decodable (List.length (BoolArchive.a_words a)) s) /\
+    (actions_decodable (List.length (BoolArchive.a_words a)) s = false -> a' = a).
+Proof. exact actions_decodable_decode. Qed.
+
+(* every encoding the compressor writes for a model with n >= 1 actions meets it for a model with n actions *)
+Theorem C13_explorer_encodings_decodable : forall bs, bs <> [] ->
+  actions_decodable (BoolArchive.nwords (List.length bs)) (snd (BoolArchive.encoding (BoolArchive.of_bits bs))) = true.
+Proof. exact explorer_encoding_decodable. Qed.
+
+Theorem C13_wf_splits : forall nw asis sm,
+  wf_summary nw asis sm = true <->
+  wf_summary_shape asis sm = true /\ (forall r, In r sm -> actions_decodable nw (r_enc r) = true).
+Proof. exact wf_summary_split. Qed.
+
+(* hence, for summaries whose Actions texts were written by the compressor of a model with n actions
+   ([explorer_encoded n sm]), POST then GET from ANY engine state, with no further hypothesis on the encodings *)
+Theorem C13_round_trip_explorer_written : forall n cast fmt asis sm st r, cast_agrees cast -> 1 <= n ->
+  wf_summary_shape asis sm = true -> explorer_encoded n sm -> In r (tl sm) ->
+  exists st' st'',
+    post_solutions (BoolArchive.nwords n) cast fmt asis st (CsvRecords (marshal_records (map fst asis) sm)) = Ok (S200, st') /\
+    get_solution fmt st' (r_label r) = Ok (Decoded (r_enc r) (r_note r), st'').
+Proof. exact c13_round_trip_explorer. Qed.
+
+(* the clause is needed: the same summaries with ONE Actions text that does not decode are refused (400) *)
+Example C13_example_undecodable_refused :
+  forallb ex_refused ["1:"; ":"; ""; "1:2"; "FFFFFFFFFFFFFFFFF"; "0:0"] = true.
+Proof. vm_compute. reflexivity. Qed.
 
 (* ---- the hypotheses of wf_summary are met by what the marshaller writes: every "%.3f" text (optional '-',
    one or more digits, '.', digits) of a value below the float64 range is a number for the caster ---- *)
@@ -100,14 +136,15 @@ Example C13_example_summary :
   let sm := [ex_row0;
              mkRow "1-of-3" ["0.500"; "3.000"] "1FFF" "Pareto front member 1 of 3";
              mkRow "2-of-3" ["0.250"; "4.000"] "1E3" "Pareto front member 2 of 3";
-             mkRow "3-of-3" ["0.125"; "5.000"] "1E3:0:F" "Pareto front member 3 of 3"] in
-  wf_summary ex_asis sm = true.
-Proof. vm_compute. reflexivity. Qed.
+             mkRow "3-of-3" ["0.125"; "5.000"] "00000000000000000F" "Pareto front member 3 of 3"] in
+  wf_summary 1 ex_asis sm = true /\
+  wf_summary 3 ex_asis [mkRow "As-Is" ["1.000"; "2.500"] "0:0:0" "as is"; mkRow "1-of-1" ["0.125"; "5.000"] "1E3:0:F" "member"] = true.
+Proof. vm_compute. split; reflexivity. Qed.
 
 (* the former refutation witnesses of defect D9 (1E3 was decoded as 1000, F as "", 1000000 / 9E9 made POST answer 400,
    0012 was decoded as 12) and of the stale pool (label 1-of-1 already served for another summary) now round-trip *)
 Example C13_example_former_D9_witnesses_round_trip :
-  forallb (ex_round_trips_from fresh) ["1E3"; "F"; "1000000"; "9E9"; "0012"; "1E0"; "1FFF"; "0:0"] = true.
+  forallb (ex_round_trips_from fresh) ["1E3"; "F"; "1000000"; "9E9"; "0012"; "1E0"; "1FFF"; "FFFF"] = true.
 Proof. vm_compute. reflexivity. Qed.
 
 Example C13_example_repost_round_trips :
@@ -124,3 +161,7 @@ Print Assumptions C13_round_trip.
 Print Assumptions C13_front_member.
 Print Assumptions C13_front_non_member.
 Print Assumptions C13_value_texts_are_numbers.
+Print Assumptions C13_decodable_is_decode_verdict.
+Print Assumptions C13_explorer_encodings_decodable.
+Print Assumptions C13_wf_splits.
+Print Assumptions C13_round_trip_explorer_written.
